@@ -301,3 +301,133 @@ Lemma initial_config_uniq hm ini d :
   wf_defs hm = true -> find_def (hm_states hm) ini = Some d ->
   uniq (chain_tree ini (initial_tree def_depth_bound d)) = true.
 Proof. intros W FD. apply uniq_chain, initial_tree_uniq. eapply find_def_wf; eauto. Qed.
+(* ---------- find_def algebra ---------- *)
+Lemma find_def_app : forall a ds b d,
+  a <> [] -> b <> [] -> find_def ds a = Some d -> find_def ds (a ++ b) = find_def (sd_children d) b.
+Proof.
+  induction a as [|n a' IH]; intros ds b d Ha Hb H; [congruence|].
+  destruct a' as [|m a2].
+  - cbn in H. cbn [app]. destruct b as [|x b']; [congruence|]. cbn [find_def]. rewrite H. reflexivity.
+  - cbn [find_def] in H. destruct (find_child ds n) as [c0|] eqn:FC; [|discriminate].
+    change ((n :: m :: a2) ++ b) with (n :: (m :: a2) ++ b). 
+    assert (E: find_def ds (n :: (m :: a2) ++ b) = find_def (sd_children c0) ((m :: a2) ++ b)).
+    { cbn [app find_def]. rewrite FC. reflexivity. }
+    rewrite E. apply IH; [discriminate|exact Hb|exact H].
+Qed.
+
+Lemma find_def_prefix : forall a ds b d,
+  a <> [] -> find_def ds (a ++ b) = Some d -> exists d', find_def ds a = Some d'.
+Proof.
+  induction a as [|n a' IH]; intros ds b d Ha H; [congruence|].
+  destruct a' as [|m a2].
+  - cbn [app] in H. destruct b as [|x b']; [eauto|].
+    cbn [find_def] in H. cbn [find_def]. destruct (find_child ds n); [eauto|discriminate].
+  - change ((n :: m :: a2) ++ b) with (n :: (m :: a2) ++ b) in H. cbn [app find_def] in H.
+    destruct (find_child ds n) as [c0|] eqn:FC; [|discriminate].
+    apply IH in H; [|discriminate]. destruct H as [d' H]. exists d'. cbn [find_def]. rewrite FC. exact H.
+Qed.
+
+(* every node of the initial tree of a definition is a registered descendant of it *)
+Lemma initial_tree_registered : forall fuel d q,
+  In q (nodes (initial_tree fuel d)) -> exists d', find_def (sd_children d) q = Some d'.
+Proof.
+  induction fuel as [|f IH]; intros d q H; cbn [initial_tree] in H; [destruct H|].
+  destruct q as [|n r]; [exfalso; eapply nil_notin_nodes; eauto|].
+  apply in_nodes_cons in H as (ch & Hin & Hr).
+  apply in_flat_map in Hin as (n0 & _ & Hin).
+  destruct (find_child (sd_children d) n0) as [c0|] eqn:FC; [|destruct Hin].
+  destruct Hin as [E|[]]. injection E as -> <-.
+  destruct Hr as [->|Hr].
+  - exists c0. exact FC.
+  - apply IH in Hr as [d' Hd']. exists d'. destruct r as [|m r']; [discriminate|]. cbn [find_def]. rewrite FC. exact Hd'.
+Qed.
+
+Section Reg.
+  Variable hm : hmachine.
+
+  (* every active state is registered *)
+  Definition reg (f : forest) : Prop :=
+    forall p, p <> [] -> active f p = true -> exists d, find_def (hm_states hm) p = Some d.
+
+  Lemma scope_children_find sc dst dd :
+    (sc = [] \/ exists ds, find_def (hm_states hm) sc = Some ds) -> dst <> [] ->
+    find_def (scope_children hm sc) dst = Some dd -> find_def (hm_states hm) (sc ++ dst) = Some dd.
+  Proof.
+    intros [->|[ds Hs]] Hd H; [exact H|]. unfold scope_children in H. destruct sc as [|n r]; [exact H|].
+    rewrite Hs in H. rewrite (find_def_app (n :: r) _ dst ds) by (discriminate || assumption). exact H.
+  Qed.
+
+  (* what is active after a resolution was active before or has been entered *)
+  Lemma resolve_new_active f sc dst dd r :
+    uniq (initial_tree def_depth_bound dd) = true -> dst <> [] ->
+    resolve f sc dst dd = Some r ->
+    forall p, p <> [] -> active (r_new r) p = true -> active f p = true \/ In p (r_enters r).
+  Proof.
+    intros UB Hd R p Hp A.
+    destruct (split_active f sc dst) as [root rest] eqn:SA.
+    destruct (resolve_unfold f sc dst dd r R root rest SA) as (scoped & S & E). cbv zeta in E.
+    pose proof (rest_ne f sc dst Hd root rest SA) as RN.
+    assert (NEW: r_new r = update_at f (sc ++ root) (fun _ => if Nat.ltb 1 (length scoped) then f_set scoped (hd 0 rest) (chain_tree (tl rest) (initial_tree def_depth_bound dd)) else chain_tree rest (initial_tree def_depth_bound dd))) by (rewrite E; reflexivity).
+    set (base := sc ++ root) in *.
+    destruct (list_eq_dec Nat.eq_dec (firstn (length base) p) base) as [PF|NPF].
+    - assert (HP: p = base ++ skipn (length base) p) by (rewrite <- PF at 1; now rewrite firstn_skipn).
+      destruct (skipn (length base) p) as [|m q1] eqn:EQ.
+      + rewrite app_nil_r in HP. subst p. left. unfold active. now rewrite S.
+      + rewrite HP in *. rewrite NEW in A. rewrite active_app in A.
+        pose proof (sub_update_below base f (fun _ => if Nat.ltb 1 (length scoped) then f_set scoped (hd 0 rest) (chain_tree (tl rest) (initial_tree def_depth_bound dd)) else chain_tree rest (initial_tree def_depth_bound dd)) scoped [] S) as SU.
+        rewrite app_nil_r in SU. rewrite SU in A. cbn [sub] in A. clear SU.
+        destruct rest as [|d0 rt] eqn:ER; [congruence|]. cbn [hd tl] in A.
+        destruct (Nat.ltb 1 (length scoped)).
+        * unfold active in A. cbn [sub] in A. rewrite f_get_f_set in A. destruct (Nat.eqb m d0) eqn:EM.
+          -- apply Nat.eqb_eq in EM. subst m. right.
+             apply (enters_below f sc dst dd r UB Hd R root (d0 :: rt) SA (d0 :: q1) ltac:(discriminate)).
+             unfold active. cbn [chain_tree sub f_get]. rewrite Nat.eqb_refl. exact A.
+          -- left. rewrite active_app, S. unfold active. cbn [sub]. exact A.
+        * right. apply (enters_below f sc dst dd r UB Hd R root (d0 :: rt) SA (m :: q1) ltac:(discriminate)). exact A.
+    - left. assert (NP: ~ is_prefix base p).
+      { intros [q Hq]. apply NPF. rewrite Hq. rewrite firstn_app, Nat.sub_diag, firstn_all. cbn. now rewrite app_nil_r. }
+      rewrite NEW, active_update_other in A by exact NP. exact A.
+  Qed.
+
+  Lemma active_prefix f a b : active f (a ++ b) = true -> active f a = true.
+  Proof. rewrite active_app. unfold active. destruct (sub f a); [reflexivity|discriminate]. Qed.
+
+  (* a resolution keeps every active state registered *)
+  Lemma resolve_reg f sc dst dd r :
+    wf_defs hm = true -> reg f -> find_def (scope_children hm sc) dst = Some dd ->
+    resolve f sc dst dd = Some r -> reg (r_new r).
+  Proof.
+    intros W RG FD R p Hp A.
+    assert (Hd: dst <> []) by (intros ->; destruct (scope_children hm sc); discriminate).
+    assert (UB: uniq (initial_tree def_depth_bound dd) = true).
+    { apply initial_tree_uniq. eapply find_def_wf; [|exact FD]. now apply scope_children_wf. }
+    destruct (resolve_new_active f sc dst dd r UB Hd R p Hp A) as [H|H]; [now apply RG|].
+    destruct (split_active f sc dst) as [root rest] eqn:SA.
+    destruct (resolve_unfold f sc dst dd r R root rest SA) as (scoped & S & E). cbv zeta in E.
+    assert (SCA: active f sc = true) by (apply (active_prefix f sc root); unfold active; now rewrite S).
+    assert (SCR: sc = [] \/ exists ds, find_def (hm_states hm) sc = Some ds).
+    { destruct sc as [|n sc']; [now left|right]. apply RG; [discriminate|exact SCA]. }
+    destruct (sub f sc) as [cur|] eqn:SS; [|unfold active in SCA; rewrite SS in SCA; discriminate].
+    destruct (split_active_spec f sc dst root rest cur Hd SS SA) as (RR & RN & _ & _).
+    pose proof (scope_children_find sc dst dd SCR Hd FD) as FULL.
+    rewrite E in H. cbn [r_enters] in H. apply in_app_iff in H as [H|H].
+    - apply in_prefixes_from in H as (q & r' & Hq & Hr & ->).
+      apply (find_def_prefix ((sc ++ root) ++ q) (hm_states hm) r' dd).
+      + destruct q; [congruence|]. destruct (sc ++ root); discriminate.
+      + replace (((sc ++ root) ++ q) ++ r') with (sc ++ dst); [exact FULL|].
+        rewrite <- RR, Hr. now rewrite !app_assoc.
+    - apply in_map_iff in H as (q & <- & Hq). apply in_bfs in Hq.
+      apply initial_tree_registered in Hq as [d' Hd'].
+      exists d'. replace ((sc ++ root) ++ rest ++ q) with ((sc ++ dst) ++ q) by (rewrite <- RR; now rewrite !app_assoc).
+      assert (QN: q <> []) by (intros ->; destruct (sd_children dd); discriminate).
+      rewrite (find_def_app (sc ++ dst) (hm_states hm) q dd); [exact Hd'| |exact QN|exact FULL].
+      destruct dst; [congruence|]. destruct sc; discriminate.
+  Qed.
+
+  (* C02: after every event of every history the model's state names only registered states *)
+  Theorem reach_reg f f' : wf_defs hm = true -> reach hm f f' -> reg f -> reg f'.
+  Proof.
+    intros W R. induction R as [|f sc dst dd r f' FD RS R IH]; intros RG; [exact RG|].
+    apply IH. eapply resolve_reg; eauto.
+  Qed.
+End Reg.
